@@ -25,6 +25,8 @@ const (
 	NSClient = "jabber:client"
 	NSServer = "jabber:server"
 	NSStream = "http://etherx.jabber.org/streams"
+	// NSComponent is the content namespace of XEP-0114 component streams.
+	NSComponent = "jabber:component:accept"
 )
 
 // Opts configure a ready-made session.
@@ -39,10 +41,16 @@ type Opts struct {
 	// compression or security layer does), so that the session's transport is
 	// a non-net.Conn layer whose deadlines are proxied to the real connection.
 	Layered bool
+	// Component makes the stream's content namespace jabber:component:accept
+	// (XEP-0114), as component.NewSession's negotiator does.
+	Component bool
 }
 
 // NS returns the content namespace for o.
 func (o Opts) NS() string {
+	if o.Component {
+		return NSComponent
+	}
 	if o.S2S {
 		return NSServer
 	}
